@@ -114,7 +114,9 @@ func pathTable(c *Ctx, ts tableSpec) ([]string, []string, token.Pos) {
 					for _, x := range a.conds {
 						cs = append(cs, normCond(x))
 					}
-					alts = append(alts, "["+strings.Join(simplifyConds(cs), " && ")+"] "+strings.Join(renderCalls(a.calls, nil), "; ")+" "+a.exit)
+					cs = simplifyConds(cs)
+					sort.Strings(cs)
+					alts = append(alts, "["+strings.Join(cs, " && ")+"] "+strings.Join(renderCalls(a.calls, nil), "; ")+" "+a.exit)
 				}
 				sort.Strings(alts)
 				hdr := ""
@@ -156,6 +158,7 @@ func pathTable(c *Ctx, ts tableSpec) ([]string, []string, token.Pos) {
 			conds = append(conds, normCond(cnd))
 		}
 		conds = simplifyConds(conds)
+		sort.Strings(conds) // a conjunction: the order of the tests carries nothing
 		es := renderCalls(st.calls, st.assigns)
 		tail := ""
 		if raised {
